@@ -2,7 +2,7 @@
    well-formedness check for list-given trees, the non-vacuity example and the
    witnesses of the three refuted statements (all by vm_compute). *)
 From Coq Require Import List NArith Bool Lia.
-From GV Require Import Lib.Tactics Chain.Tree Chain.Canonical Chain.CanonicalProofs Chain.CanonicalInv Chain.CanonicalTop.
+From GV Require Import Lib.Tactics Chain.Tree Chain.Canonical Chain.LookupCache Chain.CanonicalProofs Chain.CanonicalInv Chain.CanonicalTop.
 Import ListNotations.
 Local Open Scope N_scope.
 
@@ -130,3 +130,20 @@ Lemma nonvacuous : wf_tree WT /\ nonvacuous_check = true /\
 Proof.
   split; [exact WT_wf|]. split; [exact nonvacuous_ok|]. split; [exact WT_genesis_parent | exact guarded_ok].
 Qed.
+
+(* the cached public lookup path on the stale history (every tx asked after every
+   operation): before /repo 34cd8539c8 ([legacy] cache semantics) writeHeadBlock replaced
+   canonical block 1 by its competitor 5 and dropped marker #2 without purging the cache,
+   so GetCanonicalTransaction(tx 7) kept answering block 2 (#2), which the index no longer
+   resolves; with the purge it answers nothing *)
+Definition cached_vs_index (legacy : bool) (ops : list op) (tx : N) : option (N * N) * option (N * N) * option N :=
+  let '(st, c) := run_cache legacy WT wfuel [7; 9] genesis_db [] ops in
+  (answer WT st c tx, resolve_tx WT st tx, canon st 2).
+
+Lemma lookup_cache_stale_legacy_refuted :
+  exists (ops : list op) (tx : N),
+    cached_vs_index true ops tx = (Some (2, 2), None, None).
+Proof. exists stale_ops, 7. vm_compute. reflexivity. Qed.
+
+Lemma lookup_cache_repaired : cached_vs_index false stale_ops 7 = (None, None, None).
+Proof. vm_compute. reflexivity. Qed.
